@@ -135,6 +135,47 @@ def oracle_connect(case):
     return None
 
 
+def oracle_wrapper(case):
+    """the five wrappers equal connect_circuit with their documented connector lists"""
+    base, other = case['base'], case['other']
+    kind, name, ap = case['wrapper'], case['name'], case['add_prefix']
+
+    def run(fn):
+        cb, co = ct.build_circuit(base), ct.build_circuit(other)
+        try:
+            fn(cb, co)
+        except Exception as e:  # noqa: BLE001
+            return ('err', type(e).__name__)
+        if name:
+            gen.canonicalise_block(cb, name)
+        return ('ok', ct.dump_circuit(cb))
+    tc, oc, right = case.get('tc'), case.get('oc'), case.get('right', False)
+    if kind == 'connect_left':
+        got = run(lambda b, o: b.connect_left(o, list(tc), name=name, add_prefix=ap))
+        exp = run(lambda b, o: b.connect_circuit(o, list(tc), list(o.inputs), right_connect=False, name=name, add_prefix=ap))
+    elif kind == 'connect_right':
+        got = run(lambda b, o: b.connect_right(o, list(oc), name=name, add_prefix=ap))
+        exp = run(lambda b, o: b.connect_circuit(o, list(b.inputs), list(oc), right_connect=True, name=name, add_prefix=ap))
+    elif kind == 'connect_inputs':
+        got = run(lambda b, o: b.connect_inputs(o, name=name, add_prefix=ap))
+        exp = run(lambda b, o: b.connect_circuit(o, list(b.inputs), list(o.inputs), right_connect=True, name=name, add_prefix=ap))
+    elif kind == 'add_circuit':
+        got = run(lambda b, o: b.add_circuit(o, name=name, add_prefix=ap))
+        exp = run(lambda b, o: b.connect_circuit(o, [], [], name=name, add_prefix=ap))
+    else:  # extend_circuit: None means the documented default, an explicit list (even empty) is used as given
+        got = run(lambda b, o: b.extend_circuit(o, this_connectors=None if tc is None else list(tc),
+                                                other_connectors=None if oc is None else list(oc),
+                                                right_connect=right, name=name, add_prefix=ap))
+        exp = run(lambda b, o: b.connect_circuit(
+            o,
+            list(tc) if tc is not None else list(b.inputs if right else b.outputs),
+            list(oc) if oc is not None else list(o.outputs if right else o.inputs),
+            right_connect=right, name=name, add_prefix=ap))
+    if got != exp:
+        return f'{kind} differs from connect_circuit with its documented connectors: {str(got)[:150]} vs {str(exp)[:150]}'
+    return None
+
+
 # ------------------------------------------------------------------ C13
 def oracle_miter(case):
     l, r = case['left'], case['right']
